@@ -11,6 +11,50 @@ def build(reg):
     U = mps_utils.UTILS
     return dict(
         targets=[f"{U}:_determine_cutoff_index", f"{U}:split_matrix", f"{U}:split_matrix[isometry]"] + targets,
-        not_decided=[],
-        trusted=["torch.linalg.eigh returns ascending real eigenvalues and a unitary matrix (A4)"],
+        explanation=(
+            "The factor list is an abstract data structure (contracts/mps_canon.py): symbolic number of sites, "
+            "ghost arrays chiL/chiR (bond dimensions), iso (left/right orthonormality tag per site) and disc "
+            "(weight discarded per bond, ABSOLUTE units of the state the list represents now: scaling one factor "
+            "by alpha multiplies every disc(j) by |alpha|^2).  Proved for every number of sites and all bond "
+            "dimensions: truncate_impl / MPS.truncate / MPS.__add__ leave every bond <= max_bond_dim, every site "
+            ">= 1 right-orthonormal, centre 0 declared, and unless the cap binds the weight discarded at each bond "
+            "is <= precision^2 in absolute units; MPS.orthogonalize establishes Canon(self) for the requested "
+            "centre by gauge moves only (no weight discarded, no bond grows); MPS.norm returns the norm of the "
+            "tensor at the declared centre of a canonical state; MPS.apply, scalar *, _evolve and evolve_pair keep "
+            "the declared centre truthful and pass precision / max_bond_dim / orth_center_right through."),
+        not_decided=[
+            "that split_matrix's product l @ r equals m projected on the kept eigenvectors (l = m q_k): entries of "
+            "matrix products over a symbolic dimension are uninterpreted; the contract pins the shapes, the cut "
+            "index, the dropped weight of the spectrum and that the isometric factor is q's trailing columns",
+            "floating point: orthonormality up to rounding, and eigh of the Gram matrix resolving singular values "
+            "below about 1e-8 * |m| (A1: floats are reals here)",
+            "noisy runs (has_lindblad_noise): split_matrix(preserve_norm=True) rescales the kept part on purpose; "
+            "the absolute discarded weight of that step is excluded from the _evolve budget clause",
+            "MPO.apply_to / zip_right (they call truncate_impl on 4-leg factors) and minimize_energy_pair (DMRG): "
+            "not under contract",
+            "that a split never increases a bond (k <= old bond): needs the rank of the Gram matrix, not claimed by C10",
+            "callers of orthogonalize that are not listed (sample, expect_batch, entanglement_entropy, "
+            "get_correlation_matrix) are covered only through orthogonalize's contract",
+        ],
+        trusted=[
+            "torch.linalg.eigh returns ascending real eigenvalues and a unitary matrix (A4)",
+            "torch.linalg.qr(m) = (q, r) with m = q r, q with orthonormal columns, reduced shapes "
+            "(rows x min, min x cols) (A4)",
+            "torch.tensordot contracts exactly the named legs; result shape as documented (A4)",
+            "Tensor.view / .mT / .contiguous regroup legs row-major without changing entries (A3): a (a, s, b) tensor "
+            "viewed (a*s, b) has orthonormal columns iff it is left-orthonormal, viewed (a, s*b) orthonormal rows "
+            "iff right-orthonormal",
+            "linear algebra link (not mechanised): for a state whose factors left of site i are left-orthonormal and "
+            "right of it right-orthonormal, (1) its norm is the Frobenius norm of factor i, (2) replacing factor i, "
+            "viewed as a matrix m, by l r with r = q_k^H (q_k = kept eigenvectors of m^H m) changes the state by "
+            "exactly the sum of the dropped eigenvalues, (3) replacing factor i by the Q of its QR and absorbing R "
+            "into the neighbour across the factorised bond leaves the state unchanged, (4) successive truncation "
+            "errors of a sweep are orthogonal, so the total error^2 is the sum of the per-bond weights",
+            "emu_mps.algebra.scale_factors / add_factors, MPS.__init__, make_op, evolve_single are modelled from "
+            "reading them (new list with one factor scaled / direct-sum bond dimensions / fields set / two-site "
+            "tensor shape / shape kept); krylov_exp returns a tensor of the shape of its argument (accuracy: C07)",
+            "all factors of a list have the same physical dimension and no empty leg (every dimension >= 1: "
+            "assumed for the initial list, proved at every store `stored-factor-nonempty`); tensors reachable from a factor list are not "
+            "modified in place through an alias (x = factors[i]; x *= c is outside the model)",
+        ],
     )
